@@ -685,9 +685,11 @@ def parse_template(text):
         if m:
             cur.inserts.append((m.group(1), _unq(m.group(2)), int(m.group(3) or 1), m.group(4), ln))
             continue
-        m = re.match(r"^(replace|resub)\s+%s\s*=>\s*%s\s*(?:#(\d+|all))?\s*$" % (_q, _q), d)
+        m = re.match(r"^(replace|resub)(\??)\s+%s\s*=>\s*%s\s*(?:#(\d+|all))?\s*$" % (_q, _q), d)
         if m:
-            cur.edits.append((m.group(1), _unq(m.group(2)), _unq(m.group(3)), m.group(4) or "1", ln))
+            # `replace?` / `resub?`: a rewrite that only removes a construct Verus cannot read (a closure, a combinator chain); when the
+            # code no longer contains it (already written in the explicit form) the item is extracted as it stands
+            cur.edits.append((m.group(1) + ("?" if m.group(2) else ""), _unq(m.group(3)), _unq(m.group(4)), m.group(5) or "1", ln))
             continue
         m = re.match(r"^expand-macro\s+(\S+)\s*::\s*(\w+)\s*$", d)
         if m:
@@ -797,6 +799,11 @@ def _apply_edits(text, edits, record, where):
     for (mode, old, new, nth, tline) in edits:
         if mode == "macro":
             text = expand_macro(text, Source.get(_REPO_ROOT[0], old).text, new, record, where)
+            continue
+        optional = mode.endswith("?")
+        mode = mode.rstrip("?")
+        if optional and ((mode == "replace" and old not in text) or (mode == "resub" and not re.search(old, text, re.S))):
+            record.append("optional %s %r: construct absent, item extracted as it stands" % (mode, old))
             continue
         if mode == "replace":
             cnt = text.count(old)
